@@ -178,7 +178,7 @@ impl Prop for MlpgDense {
         60 * (4 * 3 * 2 * 4 + 3) + 32
     }
     fn cases(&self, tier: Tier) -> u32 {
-        tier.pick(6_000, 200_000)
+        tier.pick(120_000, 2_000_000)
     }
     fn decode(&self, t: &mut Tape, _: Tier) -> Case {
         let vector_length = t.urange(1, 4);
